@@ -103,7 +103,7 @@ package keeper
 // with amount >= minimum stake, at most MaxChains chains, spendable funds covering the stake and
 // - once the upgrade height has passed - fewer than MaxApplications staked applications.
 //@ func (Keeper).ValidateApplicationStaking
-//@   props C28,C12
+//@   props C28,C20,C12
 //@   modifies bigv, hasCoinsN, hasCoinsOK, hasCoinsAddr, hasCoinsAmt
 //@   ensures [bigv-kept] forall p int {bigv[p]} :: isold(p) ==> bigv[p] == old(bigv[p])
 //@   ensures [max-chains] result == nil ==> len(application.Chains) <= aMaxChains(ctx)
@@ -124,7 +124,7 @@ package keeper
 // transfer: only after both upgrades, only when the SIGNER is a staked application, and only to
 // a key that has no application record; the record returned is the signer's
 //@ func (Keeper).ValidateApplicationTransfer
-//@   props C28,C14,C12
+//@   props C28,C20,C14,C12
 //@   modifies bigv
 //@   ensures [bigv-kept] forall p int {bigv[p]} :: isold(p) ==> bigv[p] == old(bigv[p])
 //@   ensures [upgrades] result1 == nil ==> ctxAfterUpgrade(ctx) && ((global(codec.UpgradeFeatureMap)["AppTransfer"] != 0 && ctxHeight(ctx) >= global(codec.UpgradeFeatureMap)["AppTransfer"]) || global(codec.TestMode) <= 0 - 3)
